@@ -30,8 +30,8 @@ CHECKS = {
  "C11": (M + "visit-count oracle: every node prints all counts, Snapshot().VisitedNodes compared after every step with the model's count of completed jump-exits; monotonicity; mid-run restores; failed jumps",
          "Held on the executions observed over generated jump graphs with self-loops, cycles, nested and computed jumps and every tracking marking.",
          T_MODEL),
- "C12": (M + "absorbing-state monitor: after the first end, 10 further Next calls with hostile arguments; host-function, command and store-write recorders must stay silent; restore revives",
-         "Held on the executions observed: ends by node end and by stop at nesting depth 0-6 with statements left, ends right after option groups, stops written with extra words.",
+ "C12": (M + "absorbing-state monitor: after the first end, 10 (now and then 700) further Next calls with hostile arguments; host-function, command and store-write recorders must stay silent; restore revives",
+         "Held on the executions observed: ends by node end and by stop at nesting depth 0-14 with statements left, ends right after option groups, stops written with extra words, ends that meet pending commands or a panicking host function; 10 to 700 further calls.",
          T_MODEL + "'No variable change' = no Set*/Clear on the recording store, unchanged GetValues() on the default store."),
  "C17": (M + "handler-log oracle: generated command statements (keyword-prefixed and multi-byte names, hostile words, expression arguments, tab/blank separators) compared with the typing rule of the property",
          "Held on the executions observed; every hostile word and every keyword-prefixed name is required by the coverage floor. Known finding K3 (names beginning with else/endif/endenum) is listed in known_findings.json.",
